@@ -34,6 +34,40 @@ def gen_secdefs(rng, gen_re=False):
     return out
 
 
+SCALE_SIZES = [3000, 6000, 9000, 9000, 13000, 20000, 30000, 45000, 70000, 100000]
+
+
+def gen_scale_case(rng, target=None, longest=3000):
+    """a content at scale: hundreds to thousands of lines, 3 kB - 100 kB in all (below and beyond the sizes at which streams,
+    buffers and chunked copies change regime), made of numbered lines of varying width with pool lines (END, STOP, empty ...)
+    strewn thinly, so that pattern-terminated sections stop early, late or never, a rare very long line, and fixed-count
+    sections that may consume hundreds of lines"""
+    if target is None:
+        target = rng.choice(SCALE_SIZES)
+    target = rng.randint(target * 3 // 4, target * 5 // 4)
+    p_pool = rng.choice([0.0, 0.002, 0.01, 0.05, 0.3])
+    width = rng.choice([0, 8, 30, 70])
+    lines, size = [], 0
+    while size < target:
+        v = rng.random()
+        if v < p_pool:
+            l = rng.choice(LINE_POOL)
+        elif v < p_pool + 0.004:
+            l = "long %d " % len(lines) + rng.choice(["x", "ab ", "é"]) * rng.randint(longest // 10, longest)
+        else:
+            l = "line %06d " % len(lines) + "x" * rng.randint(0, width)
+        lines.append(l)
+        size += len(l) + 1
+    sds = gen_secdefs(rng, rng.random() < 0.2)
+    for sd in sds:
+        if sd[0] == "lines" and rng.random() < 0.4:
+            sd[1] = rng.choice([10, 100, 300, len(lines) - 1, len(lines), len(lines) + 2])
+    case = {"secs": sds, "content": "\n".join(lines) + rng.choice(["\n", "\n", ""])}
+    if rng.random() < 0.25:
+        case["looks"] = gen_looks(rng, sds, case["content"])
+    return case
+
+
 LOOK_KINDS = ["cmp", "cmp", "cmp", "walk", "walk", "oftype", "contains", "len", "get", "ends", "write", "elems"]
 
 
@@ -90,7 +124,14 @@ class CHECK(Check):
             "modify nothing -- ==/!= as left or right operand against a file read through the same class from the same / an edited / a "
             "shorter / an unrelated content, traversals of .data and of_type() abandoned after k elements, membership, len, "
             "get_sections_of_type, first/last, writes and looks at the elements in between (each of these is recorded, compared with "
-            "the model -- which is functional: every write gives the content, every look the same elements -- and judged like the measured ones).")
+            "the model -- which is functional: every write gives the content, every look the same elements -- and judged like the measured ones)."
+            " Round 13: contents at scale -- 8 per quick run of 2 kB - 37 kB (one per size class), 60 per thorough run of 2 kB - 125 kB; "
+            "50 - 10000 lines (numbered lines of varying "
+            "width, pool lines strewn thinly so that pattern-terminated sections stop early, late or never, a rare line of up to 600 (thorough: 9000) "
+            "characters, fixed-count sections consuming up to hundreds of lines or more than there are), hence hundreds to "
+            "thousands of elements written in one write; judged like the small ones, and compared with the extracted model in the "
+            "extra tie (counted under judged_by_oracle_only_outside_model in the main comparison only because coqc cannot read "
+            "a term of that size back for the in-kernel sample).")
 
     def gen(self, tier, rng):
         import random
@@ -118,6 +159,38 @@ class CHECK(Check):
                 # object lifetime: what is done with the file between its read and the measured elements / write
                 case["looks"] = gen_looks(rng, sds, case["content"])
             yield case
+        # scale: a handful of contents of 3 kB - 100 kB per run
+        # (quick: one per size up to 30 kB and lines of up to 600 characters -- the model's run time grows faster than the content)
+        self._scale_cases = []
+        for i in range(8 if tier == "quick" else 60):
+            case = gen_scale_case(rng, SCALE_SIZES[i % 7], 600) if tier == "quick" else gen_scale_case(rng)
+            case["scale"] = True
+            self._scale_cases.append(case)
+            yield case
+
+    def comparable(self, case):
+        """the contents at scale are inside the model's input language, but not inside what coqc can read back as one term (its
+        reader overflows its stack on a term of 200 000 characters): they are kept out of the batch the in-kernel sample is drawn
+        from, and compared with the extracted model in extra() instead"""
+        return not case.get("scale")
+
+    def extra(self, tier, seed):
+        cases = getattr(self, "_scale_cases", [])
+        if not cases:
+            return None
+        res = lib.run_model(self.entry, [self.model_arg(c) for c in cases])
+        problems = []
+        for c, r in zip(cases, res):
+            try:
+                o = self.impl(c)
+            except Exception as e:
+                o = {"harness_exception": type(e).__name__ + ": " + str(e)[:200]}
+            d = self.compare(c, o, self.model_obs(c, r))
+            if d:
+                problems.append("content of %d characters, sections %r: %s" % (len(c["content"]), c["secs"], d[:300]))
+        return {"what": "contents at scale (2 kB - 125 kB): SectionFile.read/.data/write vs the extracted model, case by case as in the "
+                        "main comparison (driver only: these cases are not part of the in-kernel sample)",
+                "evaluations": len(cases), "problems": problems[:5]}
 
     def impl(self, case):
         from cfinterface.components.defaultsection import DefaultSection
@@ -284,6 +357,8 @@ class CHECK(Check):
         c = case["content"]
         d = {"sections_%d" % len(case["secs"]): 1, "lines_%02d" % min(12, c.count("\n") + (1 if c and not c.endswith("\n") else 0)): 1,
              "final_newline" if c.endswith("\n") else "no_final_newline": 1}
+        if len(c) >= 2048:
+            d["content_at_scale_%s" % ("2k_8k" if len(c) < 8192 else "8k_64k" if len(c) < 65536 else "over_64k")] = 1
         if case.get("earlier"):
             d["earlier_reads_through_the_same_file_class"] = 1
         for l in case.get("looks", []):
@@ -305,6 +380,13 @@ class CHECK(Check):
 
     def shrink(self, case):
         lines = nl_lines(case["content"])
+        w = len(lines) // 2
+        while w >= 2:                # long contents: whole blocks of lines first
+            for i in range(0, len(lines), w):
+                c = dict(case)
+                c["content"] = "".join(lines[:i] + lines[i + w:])
+                yield c
+            w //= 2
         for i in range(len(lines)):
             c = dict(case)
             c["content"] = "".join(lines[:i] + lines[i + 1:])
